@@ -69,7 +69,8 @@ CHECKS = {
             "fault schedule; injected into the real solver wrapper; traces replayed through Lifecycle's actions by Trace_Lifecycle.tla; "
             "KModel.tla: one k-model object solved repeatedly (solve / tighten / get sequences from Gen_KModel.tla, Trace_KModel.tla); "
             "NumPaths.tla: the generic optimiser (MC with liveness; every complete behaviour replayed into the real class around a "
-            "scripted model, real k-models with injected statuses; logged runs replayed through NumPaths!Run by Trace_NumPaths.tla)",
+            "scripted model, real k-models with injected statuses; logged runs replayed through NumPaths!Run by Trace_NumPaths.tla; "
+            "TLAPS proof of ReturnedIsProven); Trace_Options.tla: the backend options \"proved optimal\" rests on, read back",
             "Every position x every inconclusive status (native time limit, interrupt, unknown, custom timeout) of every "
             "minimum search, nested helper searches, k-models, MinErrorFlow (both runs) and NumPathsOptimization; backend runs made to overrun "
             "the library's own SIGALRM time limit; the observed invocation trace must be "
@@ -85,7 +86,8 @@ CHECKS = {
             "by TLC on a bounded-exhaustive universe of number lists / totals / multiplicities; set covers exhaustively."),
     "C16": ("model_checking", "6/C16",
             "Trace_ErrFlow.tla (same graph, non-negative, conservation, error / objective recomputed) + unit-bump adversary "
-            "Adv_ErrFlow.tla bounded by the observed objective; epsilon and node-mode groups",
+            "Adv_ErrFlow.tla bounded by the observed objective; for far-off inputs a witness flow (re-validated by TLC) bounds the answer; "
+            "epsilon and node-mode groups",
             "A strictly closer admissible flow is a reachable state of the bump machine: decided by TLC per observation "
             "(integral optimum exists, so exact also for float)."),
     "C17": ("model_checking", "6/C17",
